@@ -83,6 +83,49 @@ theorem temp_complete_before_rename (c : TmpCfg) (perm umask : Nat) (old new : B
     simp [writeScript, probe, tempFd, h, run, step, init, lookup, upd] <;>
     intro fd <;> repeat' split <;> simp_all
 
+/-- **Hard-link witness**: the original inode (number 0) is never modified — after every prefix of
+    the script it still holds the old bytes with the old mode.  Atomic replace means a *new* inode
+    under the old name; anything else holding the old inode (a hard link, an open descriptor, a
+    running script) keeps seeing the old file. -/
+theorem original_inode_untouched (c : TmpCfg) (perm umask : Nat) (old new : Bytes) :
+    ∀ s ∈ states (writeScript c perm umask new) (init old perm umask),
+      ∃ fs, s = some fs ∧ fs.inodes 0 = some { bytes := old, mode := perm, kind := .reg } := by
+  cases c <;> by_cases h : maskMode perm umask = perm <;>
+    simp [writeScript, probe, tempFd, h, states, step, init, upd]
+
+/-- …and after the complete script the target's name points to a different inode. -/
+theorem replaced_by_new_inode (c : TmpCfg) (perm umask : Nat) (old new : Bytes) :
+    ∃ fs, run (writeScript c perm umask new) (init old perm umask) = some fs ∧
+      fs.names .target ≠ some 0 ∧ fs.inodes 0 = some { bytes := old, mode := perm, kind := .reg } := by
+  cases c <;> by_cases h : maskMode perm umask = perm <;>
+    simp [writeScript, probe, tempFd, h, run, step, init, upd]
+
+/-- **A failing atomic path leaves the file alone**: after every prefix of a failing run's script
+    the target is still the original inode with the old bytes and mode, and after the complete
+    failing script nothing else is left and nothing is open. -/
+theorem failed_run_harmless (c : TmpCfg) (at_ : FailAt) (perm umask : Nat) (old : Bytes) :
+    (∀ s ∈ states (failScript c at_) (init old perm umask),
+      ∃ fs, s = some fs ∧ fs.names .target = some 0 ∧
+        fs.inodes 0 = some { bytes := old, mode := perm, kind := .reg }) ∧
+    (∃ fs, run (failScript c at_) (init old perm umask) = some fs ∧ listing fs = [.target] ∧
+      (∀ fd, fs.fds fd = none)) := by
+  constructor
+  · cases c <;> cases at_ <;> simp [failScript, probe, states, step, init, upd]
+  · cases c <;> cases at_ <;>
+      simp [failScript, probe, run, step, init, listing, allPaths, upd] <;>
+      intro fd <;> repeat' split <;> simp_all
+
+/-- **Alphabet**: no call of any script — successful, failing, or for a non-regular target —
+    creates, truncates, writes, chmods or removes the target in place; the only call that changes
+    what the target's name refers to is the rename of the pending file onto it. -/
+theorem script_alphabet (kind : FKind) (c : TmpCfg) (at_ : FailAt) (perm umask : Nat) (new : Bytes) :
+    (∀ op ∈ shfmtW kind c perm umask new, allowedOnTarget op = true) ∧
+    (∀ op ∈ failScript c at_, allowedOnTarget op = true) := by
+  constructor
+  · cases kind <;> cases c <;> by_cases h : maskMode perm umask = perm <;>
+      simp [shfmtW, writeScript, probe, tempFd, h, allowedOnTarget]
+  · cases c <;> cases at_ <;> simp [failScript, probe, allowedOnTarget]
+
 /-- The permission bits the pending file is created with are the target's, cut by the umask, and
     the `fchmod` is present exactly when the umask took something away. -/
 theorem fchmod_iff (c : TmpCfg) (perm umask : Nat) (new : Bytes) :
